@@ -1,42 +1,317 @@
 import AslModel.Model.PFileRead
-/-! Helper lemmas for C03: fuel bound, exact re-serialisation, relation to the SPEC reader. -/
+/-! Helper lemmas for C03: one pass of the record loop (`step`) - inversion, length, exact re-serialisation,
+extension of the input, relation to the SPEC reader - and their lifts to the loop (`readRecs`). -/
 namespace AslModel.PFileRead
 open AslModel.PFile
 
-theorem preCheck_err (cfg : Cfg) (c g : Byte) (e : ToolErr) (h : preCheck cfg c g = .error e) :
-    e = .badFamily ∨ e = .badGran := by
+theorem preCheck_err (cfg : Cfg) (c s g : Byte) (e : ToolErr) (h : preCheck cfg c s g = .error e) :
+    e = .badGran ∨ e = .badSeg ∨ e = .badFamily := by
   unfold preCheck at h
+  repeat' split at h
+  all_goals first
+    | (injection h with h; subst h; simp; done)
+    | cases h
+
+theorem preCheck_nofuel (cfg : Cfg) (c s g : Byte) (h : preCheck cfg c s g = .error .fuel) : False := by
+  rcases preCheck_err _ _ _ _ _ h with h1 | h1 | h1 <;> cases h1
+
+/-! ## inversion of the three field readers -/
+
+theorem dataFields_inv (cfg : Cfg) (mk : Nat → List Byte → Record) (l : List Byte) (r : Record) (rest : List Byte)
+    (h : dataFields cfg mk l = .more r rest) :
+    ∃ a0 a1 a2 a3 l0 l1 rest', l = a0 :: a1 :: a2 :: a3 :: l0 :: l1 :: rest' ∧
+      ¬ rest'.length < rd16 l0 l1 + cfg.slack ∧
+      r = mk (rd32 a0 a1 a2 a3) (rest'.take (rd16 l0 l1)) ∧ rest = rest'.drop (rd16 l0 l1) := by
+  unfold dataFields at h
   split at h
-  · injection h with h; exact Or.inl h.symm
-  · split at h
-    · injection h with h; exact Or.inr h.symm
+  · rename_i a0 a1 a2 a3 l0 l1 rest'
+    split at h
     · cases h
+    · rename_i hl
+      injection h with h1 h2
+      exact ⟨a0, a1, a2, a3, l0, l1, rest', rfl, hl, h1.symm, h2.symm⟩
+  · cases h
 
-theorem preCheck_nofuel (cfg : Cfg) (c g : Byte) (h : preCheck cfg c g = .error .fuel) : False := by
-  rcases preCheck_err _ _ _ _ h with h1 | h1 <;> cases h1
+theorem dataFields_nofin (cfg : Cfg) (mk : Nat → List Byte → Record) (l : List Byte) (cr : List Byte) :
+    dataFields cfg mk l ≠ .fin cr := by
+  unfold dataFields
+  split
+  · split <;> simp
+  · simp
 
-theorem readRecs_fuel (cfg : Cfg) : ∀ (f : Nat) (rest : List Byte), rest.length < f →
-    readRecs cfg f rest ≠ .error .fuel := by
-  intro f
-  induction f with
-  | zero => intro rest h; omega
-  | succ f ih =>
-    intro rest h
-    have key : ∀ r : List Byte, r.length < f → ∀ e, readRecs cfg f r = .error e → e ≠ .fuel :=
-      fun r hr e he hf => ih r hr (hf ▸ he)
-    cases rest with
-    | nil => simp [readRecs]
-    | cons x xs =>
-      simp only [List.length_cons] at h
-      unfold readRecs
-      repeat' split
-      all_goals (try (simp; done))
-      all_goals first
-        | (rename_i heq; intro hh; injection hh with hh; subst hh
-           exact preCheck_nofuel _ _ _ heq)
-        | (rename_i heq; intro hh; injection hh with hh
-           refine key _ ?_ _ heq hh
-           simp only [List.length_cons, List.length_drop] at *; omega)
+theorem onShort_cases (cfg : Cfg) (e : ToolErr) :
+    (cfg.errnoLoop = true ∧ onShort cfg e = .io) ∨ onShort cfg e = e := by
+  unfold onShort
+  split
+  · rename_i h; exact Or.inl ⟨h, rfl⟩
+  · exact Or.inr rfl
+
+theorem dataFields_err (cfg : Cfg) (mk : Nat → List Byte → Record) (l : List Byte) (e : ToolErr)
+    (h : dataFields cfg mk l = .err e) : e = .badLength ∨ e = .eof ∨ (cfg.errnoLoop = true ∧ e = .io) := by
+  unfold dataFields at h
+  split at h
+  · split at h
+    · injection h with h; exact Or.inl h.symm
+    · cases h
+  · injection h with h; subst h
+    rcases onShort_cases cfg (if 0 < partialLen _ + cfg.slack then .badLength else .eof) with ⟨h1, h2⟩ | h2
+    · exact Or.inr (Or.inr ⟨h1, h2⟩)
+    · rw [h2]; split <;> simp
+
+theorem skipFields_inv (cfg : Cfg) (mk : Byte → Byte → Byte → Byte → List Byte → Record) (l : List Byte) (r : Record)
+    (rest : List Byte) (h : skipFields cfg mk l = .more r rest) :
+    ∃ a0 a1 a2 a3 l0 l1 rest', l = a0 :: a1 :: a2 :: a3 :: l0 :: l1 :: rest' ∧
+      ¬ rest'.length < rd16 l0 l1 ∧
+      r = mk a0 a1 a2 a3 (rest'.take (rd16 l0 l1)) ∧ rest = rest'.drop (rd16 l0 l1) := by
+  unfold skipFields at h
+  split at h
+  · rename_i a0 a1 a2 a3 l0 l1 rest'
+    split at h
+    · cases h
+    · rename_i hl
+      injection h with h1 h2
+      exact ⟨a0, a1, a2, a3, l0, l1, rest', rfl, hl, h1.symm, h2.symm⟩
+  · cases h
+
+theorem skipFields_nofin (cfg : Cfg) (mk : Byte → Byte → Byte → Byte → List Byte → Record) (l : List Byte) (cr : List Byte) :
+    skipFields cfg mk l ≠ .fin cr := by
+  unfold skipFields
+  split
+  · split <;> simp
+  · simp
+
+theorem onShort_eof (cfg : Cfg) (e : ToolErr) (h : onShort cfg .eof = e) :
+    e = .eof ∨ (cfg.errnoLoop = true ∧ e = .io) := by
+  subst h
+  rcases onShort_cases cfg .eof with ⟨h1, h2⟩ | h2
+  · exact Or.inr ⟨h1, h2⟩
+  · exact Or.inl h2
+
+theorem skipFields_err (cfg : Cfg) (mk : Byte → Byte → Byte → Byte → List Byte → Record) (l : List Byte) (e : ToolErr)
+    (h : skipFields cfg mk l = .err e) : e = .eof ∨ (cfg.errnoLoop = true ∧ e = .io) := by
+  unfold skipFields at h
+  split at h
+  · split at h
+    · injection h with h; exact onShort_eof _ _ h
+    · cases h
+  · injection h with h; exact onShort_eof _ _ h
+
+theorem relocFields_inv (cfg : Cfg) (l : List Byte) (r : Record) (rest : List Byte)
+    (h : relocFields cfg l = .more r rest) :
+    ∃ r0 r1 r2 r3 e0 e1 e2 e3 s0 s1 s2 s3 rest',
+      l = r0 :: r1 :: r2 :: r3 :: e0 :: e1 :: e2 :: e3 :: s0 :: s1 :: s2 :: s3 :: rest' ∧
+      ¬ rest'.length < relocFull (rd32 r0 r1 r2 r3) (rd32 e0 e1 e2 e3) (rd32 s0 s1 s2 s3) ∧
+      ¬ (cfg.parseReloc = true ∧ relocValid (rd32 r0 r1 r2 r3) (rd32 e0 e1 e2 e3) (rd32 s0 s1 s2 s3)
+          (rest'.take (relocFull (rd32 r0 r1 r2 r3) (rd32 e0 e1 e2 e3) (rd32 s0 s1 s2 s3))) = false) ∧
+      r = .reloc [r0, r1, r2, r3, e0, e1, e2, e3, s0, s1, s2, s3]
+            (rest'.take (relocFull (rd32 r0 r1 r2 r3) (rd32 e0 e1 e2 e3) (rd32 s0 s1 s2 s3))) ∧
+      rest = rest'.drop (relocFull (rd32 r0 r1 r2 r3) (rd32 e0 e1 e2 e3) (rd32 s0 s1 s2 s3)) := by
+  unfold relocFields at h
+  split at h
+  · rename_i r0 r1 r2 r3 e0 e1 e2 e3 s0 s1 s2 s3 rest'
+    split at h
+    · cases h
+    · rename_i hl
+      split at h
+      · cases h
+      · rename_i hv
+        injection h with h1 h2
+        exact ⟨r0, r1, r2, r3, e0, e1, e2, e3, s0, s1, s2, s3, rest', rfl, hl, hv, h1.symm, h2.symm⟩
+  · cases h
+
+theorem relocFields_nofin (cfg : Cfg) (l : List Byte) (cr : List Byte) : relocFields cfg l ≠ .fin cr := by
+  unfold relocFields
+  split
+  · split
+    · simp
+    · split <;> simp
+  · simp
+
+theorem relocFields_err (cfg : Cfg) (l : List Byte) (e : ToolErr) (h : relocFields cfg l = .err e) :
+    e = .badReloc ∨ e = .eof ∨ (cfg.errnoLoop = true ∧ e = .io) := by
+  unfold relocFields at h
+  split at h
+  · split at h
+    · injection h with h; subst h
+      split
+      · exact Or.inl rfl
+      · exact Or.inr (onShort_eof _ _ rfl)
+    · split at h
+      · injection h with h; exact Or.inl h.symm
+      · cases h
+  · injection h with h; subst h
+    split
+    · exact Or.inl rfl
+    · exact Or.inr (onShort_eof _ _ rfl)
+
+/-! ## one pass of the loop -/
+
+/-- the shapes of a pass that yields a record -/
+inductive StepShape (cfg : Cfg) : List Byte → Record → List Byte → Prop where
+  | entry (a0 a1 a2 a3 : Byte) (rest : List Byte) :
+      StepShape cfg (0x80 :: a0 :: a1 :: a2 :: a3 :: rest) (.entry a0 a1 a2 a3) rest
+  | short (h a0 a1 a2 a3 l0 l1 : Byte) (rest' : List Byte) (hh : h.toNat ≠ 0 ∧ h.toNat < 0x80)
+      (hp : preCheck cfg h segCode (granOf h segCode) = .ok ())
+      (hl : ¬ rest'.length < rd16 l0 l1 + cfg.slack) :
+      StepShape cfg (h :: a0 :: a1 :: a2 :: a3 :: l0 :: l1 :: rest')
+        (.data true 0x81 h segCode (granOf h segCode) (rd32 a0 a1 a2 a3) (rest'.take (rd16 l0 l1)))
+        (rest'.drop (rd16 l0 l1))
+  | long (h c s g a0 a1 a2 a3 l0 l1 : Byte) (rest' : List Byte) (hh : 0x81 ≤ h.toNat ∧ h.toNat ≤ 0x84)
+      (hd : h.toNat ≤ cfg.dataUpTo) (hp : preCheck cfg c s g = .ok ())
+      (hl : ¬ rest'.length < rd16 l0 l1 + cfg.slack) :
+      StepShape cfg (h :: c :: s :: g :: a0 :: a1 :: a2 :: a3 :: l0 :: l1 :: rest')
+        (.data false h c s g (rd32 a0 a1 a2 a3) (rest'.take (rd16 l0 l1))) (rest'.drop (rd16 l0 l1))
+  | skipLong (h c s g a0 a1 a2 a3 l0 l1 : Byte) (rest' : List Byte) (hh : 0x81 ≤ h.toNat ∧ h.toNat ≤ 0x84)
+      (hd : ¬ h.toNat ≤ cfg.dataUpTo) (hl : ¬ rest'.length < rd16 l0 l1) :
+      StepShape cfg (h :: c :: s :: g :: a0 :: a1 :: a2 :: a3 :: l0 :: l1 :: rest')
+        (.data false h c s g (rd32 a0 a1 a2 a3) (rest'.take (rd16 l0 l1))) (rest'.drop (rd16 l0 l1))
+  | reloc (h r0 r1 r2 r3 e0 e1 e2 e3 s0 s1 s2 s3 : Byte) (rest' : List Byte) (hh : h.toNat = 0x85)
+      (hl : ¬ rest'.length < relocFull (rd32 r0 r1 r2 r3) (rd32 e0 e1 e2 e3) (rd32 s0 s1 s2 s3))
+      (hv : ¬ (cfg.parseReloc = true ∧ relocValid (rd32 r0 r1 r2 r3) (rd32 e0 e1 e2 e3) (rd32 s0 s1 s2 s3)
+          (rest'.take (relocFull (rd32 r0 r1 r2 r3) (rd32 e0 e1 e2 e3) (rd32 s0 s1 s2 s3))) = false)) :
+      StepShape cfg (h :: r0 :: r1 :: r2 :: r3 :: e0 :: e1 :: e2 :: e3 :: s0 :: s1 :: s2 :: s3 :: rest')
+        (.reloc [r0, r1, r2, r3, e0, e1, e2, e3, s0, s1, s2, s3]
+            (rest'.take (relocFull (rd32 r0 r1 r2 r3) (rd32 e0 e1 e2 e3) (rd32 s0 s1 s2 s3))))
+        (rest'.drop (relocFull (rd32 r0 r1 r2 r3) (rd32 e0 e1 e2 e3) (rd32 s0 s1 s2 s3)))
+  | other (h a0 a1 a2 a3 l0 l1 : Byte) (rest' : List Byte) (hh : 0x86 ≤ h.toNat)
+      (hl : ¬ rest'.length < rd16 l0 l1) :
+      StepShape cfg (h :: a0 :: a1 :: a2 :: a3 :: l0 :: l1 :: rest')
+        (.other h [a0, a1, a2, a3] (rest'.take (rd16 l0 l1))) (rest'.drop (rd16 l0 l1))
+
+theorem u8_const (x : Byte) (n : Nat) (h : x.toNat = n) : x = UInt8.ofNat n := by
+  apply UInt8.toNat_inj.mp
+  have := x.toNat_lt
+  simp only [UInt8.toNat_ofNat']
+  omega
+
+theorem step_more (cfg : Cfg) (l : List Byte) (r : Record) (rest : List Byte)
+    (h : step cfg l = .more r rest) : StepShape cfg l r rest := by
+  unfold step at h
+  split at h
+  · cases h
+  · rename_i x xs
+    split at h
+    · cases h
+    · rename_i hn0
+      split at h
+      · rename_i h80
+        split at h
+        · injection h with h1 h2
+          subst h1; subst h2
+          rw [u8_const x 0x80 h80]
+          exact StepShape.entry _ _ _ _ _
+        · cases h
+      · rename_i hn80
+        split at h
+        · rename_i hlt
+          split at h
+          · cases h
+          · rename_i u hp
+            obtain ⟨a0, a1, a2, a3, l0, l1, rest', rfl, hl, rfl, rfl⟩ := dataFields_inv _ _ _ _ _ h
+            exact StepShape.short x a0 a1 a2 a3 l0 l1 rest' ⟨hn0, hlt⟩ hp hl
+        · rename_i hge
+          split at h
+          · rename_i hle
+            split at h
+            · rename_i c s g rest0
+              split at h
+              · rename_i hd
+                split at h
+                · cases h
+                · rename_i u hp
+                  obtain ⟨a0, a1, a2, a3, l0, l1, rest', rfl, hl, rfl, rfl⟩ := dataFields_inv _ _ _ _ _ h
+                  exact StepShape.long x c s g a0 a1 a2 a3 l0 l1 rest' ⟨by omega, hle⟩ hd hp hl
+              · rename_i hd
+                obtain ⟨a0, a1, a2, a3, l0, l1, rest', rfl, hl, rfl, rfl⟩ := skipFields_inv _ _ _ _ _ h
+                exact StepShape.skipLong x c s g a0 a1 a2 a3 l0 l1 rest' ⟨by omega, hle⟩ hd hl
+            · cases h
+          · rename_i hgt
+            split at h
+            · rename_i h85
+              obtain ⟨r0, r1, r2, r3, e0, e1, e2, e3, s0, s1, s2, s3, rest', rfl, hl, hv, rfl, rfl⟩ :=
+                relocFields_inv _ _ _ _ h
+              exact StepShape.reloc x r0 r1 r2 r3 e0 e1 e2 e3 s0 s1 s2 s3 rest' h85 hl hv
+            · rename_i hn85
+              obtain ⟨a0, a1, a2, a3, l0, l1, rest', rfl, hl, rfl, rfl⟩ := skipFields_inv _ _ _ _ _ h
+              exact StepShape.other x a0 a1 a2 a3 l0 l1 rest' (by omega) hl
+
+theorem step_fin (cfg : Cfg) (l : List Byte) (cr : List Byte) (h : step cfg l = .fin cr) : l = 0x00 :: cr := by
+  unfold step at h
+  split at h
+  · cases h
+  · rename_i x xs
+    split at h
+    · rename_i h0
+      injection h with h; subst h
+      rw [u8_const x 0 h0]; rfl
+    · split at h
+      · split at h <;> cases h
+      · split at h
+        · split at h
+          · cases h
+          · exact absurd h (dataFields_nofin _ _ _ _)
+        · split at h
+          · split at h
+            · split at h
+              · split at h
+                · cases h
+                · exact absurd h (dataFields_nofin _ _ _ _)
+              · exact absurd h (skipFields_nofin _ _ _ _)
+            · cases h
+          · split at h
+            · exact absurd h (relocFields_nofin _ _ _)
+            · exact absurd h (skipFields_nofin _ _ _ _)
+
+/-- the error of a pass is never the fuel class, and `io` only under a stale `errno` -/
+theorem step_err (cfg : Cfg) (l : List Byte) (e : ToolErr) (h : step cfg l = .err e) :
+    e ≠ .fuel ∧ (e = .io → cfg.errnoLoop = true) := by
+  have sh : ∀ e0 : ToolErr, e0 ≠ .fuel → e0 ≠ .io → onShort cfg e0 = e → e ≠ .fuel ∧ (e = .io → cfg.errnoLoop = true) := by
+    intro e0 h1 h2 h3
+    subst h3
+    rcases onShort_cases cfg e0 with ⟨h4, h5⟩ | h5
+    · rw [h5]; exact ⟨by simp, fun _ => h4⟩
+    · rw [h5]; exact ⟨h1, fun hh => absurd hh h2⟩
+  have pc : ∀ c s g, preCheck cfg c s g = .error e → e ≠ .fuel ∧ (e = .io → cfg.errnoLoop = true) := by
+    intro c s g hp
+    rcases preCheck_err _ _ _ _ _ hp with h1 | h1 | h1 <;> subst h1 <;> simp
+  have df : ∀ mk l', dataFields cfg mk l' = .err e → e ≠ .fuel ∧ (e = .io → cfg.errnoLoop = true) := by
+    intro mk l' hd
+    rcases dataFields_err _ _ _ _ hd with h1 | h1 | ⟨h0, h1⟩ <;> subst h1 <;> first | (simp; done) | exact ⟨by simp, fun _ => h0⟩
+  have sf : ∀ mk l', skipFields cfg mk l' = .err e → e ≠ .fuel ∧ (e = .io → cfg.errnoLoop = true) := by
+    intro mk l' hd
+    rcases skipFields_err _ _ _ _ hd with h1 | ⟨h0, h1⟩ <;> subst h1 <;> first | (simp; done) | exact ⟨by simp, fun _ => h0⟩
+  unfold step at h
+  split at h
+  · injection h with h; exact sh .eof (by simp) (by simp) h
+  · split at h
+    · cases h
+    · split at h
+      · split at h
+        · cases h
+        · injection h with h; exact sh .eof (by simp) (by simp) h
+      · split at h
+        · split at h
+          · rename_i hp; injection h with h; subst h; exact pc _ _ _ hp
+          · exact df _ _ h
+        · split at h
+          · split at h
+            · split at h
+              · split at h
+                · rename_i hp; injection h with h; subst h; exact pc _ _ _ hp
+                · exact df _ _ h
+              · exact sf _ _ h
+            · injection h with h
+              refine sh _ ?_ ?_ h <;> split <;> simp
+          · split at h
+            · rcases relocFields_err _ _ _ h with h1 | h1 | ⟨h0, h1⟩ <;> subst h1 <;> first | (simp; done) | exact ⟨by simp, fun _ => h0⟩
+            · exact sf _ _ h
+
+theorem step_nofuel (cfg : Cfg) (l : List Byte) : step cfg l ≠ .err .fuel :=
+  fun h => (step_err cfg l _ h).1 rfl
+
+theorem StepShape.len {cfg : Cfg} {l : List Byte} {r : Record} {rest : List Byte} (h : StepShape cfg l r rest) :
+    rest.length < l.length := by
+  cases h <;> simp only [List.length_cons, List.length_drop] <;> omega
 
 theorem b_eq (n : Nat) (x : Byte) (h : n % 256 = x.toNat) : b n = x := by
   apply UInt8.toNat_inj.mp
@@ -56,42 +331,203 @@ theorem le32_rd32 (x y z w : Byte) : le32 (rd32 x y z w) = [x, y, z, w] := by
   simp only [le32, rd32]
   rw [b_eq _ x (by omega), b_eq _ y (by omega), b_eq _ z (by omega), b_eq _ w (by omega)]
 
-theorem u8_const (x : Byte) (n : Nat) (h : x.toNat = n) : x = UInt8.ofNat n := by
-  apply UInt8.toNat_inj.mp
-  have := x.toNat_lt
-  simp only [UInt8.toNat_ofNat']
-  omega
-
 theorem take_len {α} (n : Nat) (l : List α) (h : ¬ l.length < n) : (l.take n).length = n := by
   simp only [List.length_take]; omega
 
-/-- the accepted record list re-serialises to exactly the bytes that were read: nothing skipped,
-nothing read twice, nothing beyond the end -/
-theorem readRecs_exact (cfg : Cfg) : ∀ (f : Nat) (rest : List Byte) (rs : List Record),
-    readRecs cfg f rest = .ok rs → (rs.map Record.bytes).flatten = rest := by
+/-- the record of a pass followed by the rest is the input of the pass -/
+theorem StepShape.exact {cfg : Cfg} {l : List Byte} {r : Record} {rest : List Byte} (h : StepShape cfg l r rest) :
+    r.bytes ++ rest = l := by
+  cases h with
+  | entry => rfl
+  | short h a0 a1 a2 a3 l0 l1 rest' hh hp hl =>
+    have : ¬ rest'.length < rd16 l0 l1 := by omega
+    simp [Record.bytes, le32_rd32, take_len _ _ this, le16_rd16]
+  | long h c s g a0 a1 a2 a3 l0 l1 rest' hh hd hp hl =>
+    have : ¬ rest'.length < rd16 l0 l1 := by omega
+    simp [Record.bytes, le32_rd32, take_len _ _ this, le16_rd16]
+  | skipLong h c s g a0 a1 a2 a3 l0 l1 rest' hh hd hl =>
+    simp [Record.bytes, le32_rd32, take_len _ _ hl, le16_rd16]
+  | reloc h r0 r1 r2 r3 e0 e1 e2 e3 s0 s1 s2 s3 rest' hh hl hv =>
+    simp [Record.bytes, (u8_const h 0x85 hh)]
+  | other h a0 a1 a2 a3 l0 l1 rest' hh hl =>
+    simp [Record.bytes, take_len _ _ hl, le16_rd16]
+
+/-! ## the loop -/
+
+theorem readRecs_fuel (cfg : Cfg) : ∀ (f : Nat) (l : List Byte), l.length < f →
+    readRecs cfg f l ≠ .error .fuel := by
   intro f
   induction f with
-  | zero => intro rest rs h; simp [readRecs] at h
+  | zero => intro l h; omega
   | succ f ih =>
-    intro rest rs h
-    cases rest with
-    | nil => simp [readRecs] at h
-    | cons x xs =>
-      unfold readRecs at h
-      repeat' split at h
-      all_goals (try (cases h; done))
-      all_goals (injection h with h; subst h)
-      all_goals first
-        | (rename_i hx; have hx' : x = 0 := UInt8.toNat_inj.mp hx; subst hx'; simp [Record.bytes]; done)
-        | (rename_i heq; have ihh := ih _ _ heq
-           simp only [List.map_cons, List.flatten_cons, Record.bytes, List.cons_append, List.nil_append,
-             List.append_assoc, le32_rd32, le16_rd16, List.length_take, ihh]
-           try simp (disch := omega) only [Nat.min_eq_left, le16_rd16, List.take_append_drop, List.cons_append,
-             List.nil_append]
-           try (congr 1; first
-             | exact (u8_const x 128 (by assumption)).symm
-             | exact (u8_const x 133 (by assumption)).symm))
+    intro l h
+    unfold readRecs
+    split
+    · simp
+    · rename_i e he
+      intro hh; injection hh with hh; subst hh
+      exact step_nofuel _ _ he
+    · rename_i r rest hs
+      have hlen := (step_more _ _ _ _ hs).len
+      split
+      · simp
+      · rename_i e he
+        intro hh; injection hh with hh; subst hh
+        exact ih rest (by omega) he
 
+/-- the loop ends with the I/O class only under a stale `errno` -/
+theorem readRecs_io (cfg : Cfg) : ∀ (f : Nat) (l : List Byte), readRecs cfg f l = .error .io → cfg.errnoLoop = true := by
+  intro f
+  induction f with
+  | zero => intro l h; simp [readRecs] at h
+  | succ f ih =>
+    intro l h
+    unfold readRecs at h
+    split at h
+    · cases h
+    · rename_i e he
+      injection h with h; subst h
+      exact (step_err _ _ _ he).2 rfl
+    · split at h
+      · cases h
+      · rename_i e he
+        injection h with h; subst h
+        exact ih _ he
+
+/-- the accepted record list re-serialises to exactly the bytes that were read: nothing skipped,
+nothing read twice, nothing beyond the end -/
+theorem readRecs_exact (cfg : Cfg) : ∀ (f : Nat) (l : List Byte) (rs : List Record),
+    readRecs cfg f l = .ok rs → (rs.map Record.bytes).flatten = l := by
+  intro f
+  induction f with
+  | zero => intro l rs h; simp [readRecs] at h
+  | succ f ih =>
+    intro l rs h
+    unfold readRecs at h
+    split at h
+    · rename_i cr hs
+      injection h with h; subst h
+      rw [step_fin _ _ _ hs]; simp [Record.bytes]
+    · cases h
+    · rename_i r rest hs
+      split at h
+      · rename_i rs' hr
+        injection h with h; subst h
+        have := ih _ _ hr
+        simp only [List.map_cons, List.flatten_cons, this]
+        exact (step_more _ _ _ _ hs).exact
+      · cases h
+
+theorem StepShape.notFin {cfg : Cfg} {l : List Byte} {r : Record} {rest : List Byte} (h : StepShape cfg l r rest) :
+    ∀ cr, r ≠ .fin cr := by
+  cases h <;> intro cr hh <;> cases hh
+
+/-! ## from a shape back to the pass; extension of the input -/
+
+theorem step_of_shape {cfg : Cfg} {l : List Byte} {r : Record} {rest : List Byte} (h : StepShape cfg l r rest) :
+    step cfg l = .more r rest := by
+  cases h with
+  | entry a0 a1 a2 a3 rest => simp [step]
+  | short h a0 a1 a2 a3 l0 l1 rest' hh hp hl =>
+    simp only [step]
+    rw [if_neg hh.1, if_neg (by omega), if_pos hh.2]
+    simp only [hp, dataFields]
+    rw [if_neg hl]
+  | long h c s g a0 a1 a2 a3 l0 l1 rest' hh hd hp hl =>
+    simp only [step]
+    rw [if_neg (by omega), if_neg (by omega), if_neg (by omega), if_pos hh.2, if_pos hd]
+    simp only [hp, dataFields]
+    rw [if_neg hl]
+  | skipLong h c s g a0 a1 a2 a3 l0 l1 rest' hh hd hl =>
+    simp only [step]
+    rw [if_neg (by omega), if_neg (by omega), if_neg (by omega), if_pos hh.2, if_neg hd]
+    simp only [skipFields]
+    rw [if_neg hl]
+  | reloc h r0 r1 r2 r3 e0 e1 e2 e3 s0 s1 s2 s3 rest' hh hl hv =>
+    simp only [step]
+    rw [if_neg (by omega), if_neg (by omega), if_neg (by omega), if_neg (by omega), if_pos hh]
+    simp only [relocFields]
+    rw [if_neg hl, if_neg hv]
+  | other h a0 a1 a2 a3 l0 l1 rest' hh hl =>
+    simp only [step]
+    rw [if_neg (by omega), if_neg (by omega), if_neg (by omega), if_neg (by omega), if_neg (by omega)]
+    simp only [skipFields]
+    rw [if_neg hl]
+
+theorem step_zero (cfg : Cfg) (cr : List Byte) : step cfg (0x00 :: cr) = .fin cr := by
+  simp [step]
+
+theorem take_app {α} (n : Nat) (l s : List α) (h : ¬ l.length < n) : (l ++ s).take n = l.take n :=
+  List.take_append_of_le_length (by omega)
+
+theorem drop_app {α} (n : Nat) (l s : List α) (h : ¬ l.length < n) : (l ++ s).drop n = l.drop n ++ s :=
+  List.drop_append_of_le_length (by omega)
+
+/-- a pass that yields a record yields the same record when bytes are appended to the input -/
+theorem StepShape.extend {cfg : Cfg} {l : List Byte} {r : Record} {rest : List Byte} (h : StepShape cfg l r rest)
+    (t : List Byte) : StepShape cfg (l ++ t) r (rest ++ t) := by
+  cases h with
+  | entry a0 a1 a2 a3 rest => exact StepShape.entry a0 a1 a2 a3 (rest ++ t)
+  | short h a0 a1 a2 a3 l0 l1 rest' hh hp hl =>
+    have hl0 : ¬ rest'.length < rd16 l0 l1 := by omega
+    have := StepShape.short (cfg := cfg) h a0 a1 a2 a3 l0 l1 (rest' ++ t) hh hp (by simp only [List.length_append]; omega)
+    rw [take_app _ _ _ hl0, drop_app _ _ _ hl0] at this
+    exact this
+  | long h c s g a0 a1 a2 a3 l0 l1 rest' hh hd hp hl =>
+    have hl0 : ¬ rest'.length < rd16 l0 l1 := by omega
+    have := StepShape.long (cfg := cfg) h c s g a0 a1 a2 a3 l0 l1 (rest' ++ t) hh hd hp (by simp only [List.length_append]; omega)
+    rw [take_app _ _ _ hl0, drop_app _ _ _ hl0] at this
+    exact this
+  | skipLong h c s g a0 a1 a2 a3 l0 l1 rest' hh hd hl =>
+    have := StepShape.skipLong (cfg := cfg) h c s g a0 a1 a2 a3 l0 l1 (rest' ++ t) hh hd (by simp only [List.length_append]; omega)
+    rw [take_app _ _ _ hl, drop_app _ _ _ hl] at this
+    exact this
+  | reloc h r0 r1 r2 r3 e0 e1 e2 e3 s0 s1 s2 s3 rest' hh hl hv =>
+    have := StepShape.reloc (cfg := cfg) h r0 r1 r2 r3 e0 e1 e2 e3 s0 s1 s2 s3 (rest' ++ t) hh
+      (by simp only [List.length_append]; omega) (by rw [take_app _ _ _ hl]; exact hv)
+    rw [take_app _ _ _ hl, drop_app _ _ _ hl] at this
+    exact this
+  | other h a0 a1 a2 a3 l0 l1 rest' hh hl =>
+    have := StepShape.other (cfg := cfg) h a0 a1 a2 a3 l0 l1 (rest' ++ t) hh (by simp only [List.length_append]; omega)
+    rw [take_app _ _ _ hl, drop_app _ _ _ hl] at this
+    exact this
+
+/-- acceptance is monotone under extension of the input (and of the fuel): what was the creator string grows,
+everything in front of it is read as before -/
+theorem readRecs_extend (cfg : Cfg) (t : List Byte) : ∀ (f : Nat) (l : List Byte) (rs : List Record),
+    readRecs cfg f l = .ok rs → ∀ f', f ≤ f' →
+    ∃ recs cr, rs = recs ++ [.fin cr] ∧ readRecs cfg f' (l ++ t) = .ok (recs ++ [.fin (cr ++ t)]) := by
+  intro f
+  induction f with
+  | zero => intro l rs h; simp [readRecs] at h
+  | succ f ih =>
+    intro l rs h f' hf
+    obtain ⟨f'', rfl⟩ : ∃ f'', f' = f'' + 1 := ⟨f' - 1, by omega⟩
+    unfold readRecs at h
+    split at h
+    · rename_i cr hs
+      injection h with h; subst h
+      refine ⟨[], cr, rfl, ?_⟩
+      rw [step_fin _ _ _ hs]
+      simp only [readRecs, List.cons_append, step_zero, List.nil_append]
+    · cases h
+    · rename_i r rest hs
+      split at h
+      · rename_i rs' hr
+        injection h with h; subst h
+        obtain ⟨recs, cr, rfl, hx⟩ := ih _ _ hr f'' (by omega)
+        refine ⟨r :: recs, cr, rfl, ?_⟩
+        have := step_of_shape ((step_more _ _ _ _ hs).extend t)
+        simp only [readRecs, this, hx, List.cons_append]
+      · cases h
+
+/-- an accepted list is `recs ++ [fin cr]` -/
+theorem readRecs_last (cfg : Cfg) (f : Nat) (l : List Byte) (rs : List Record) (h : readRecs cfg f l = .ok rs) :
+    ∃ recs cr, rs = recs ++ [.fin cr] := by
+  obtain ⟨recs, cr, h1, _⟩ := readRecs_extend cfg [] f l rs h f (Nat.le_refl _)
+  exact ⟨recs, cr, h1⟩
+
+/-! ## relation to the SPEC reader -/
 
 theorem parseItems_len : ∀ (f : Nat) (rest : List Byte) (is : List Item) (cr : List Byte),
     parseItems f rest = some (is, cr) → cr.length + 1 ≤ rest.length := by
@@ -112,58 +548,95 @@ theorem parseItems_len : ∀ (f : Nat) (rest : List Byte) (is : List Item) (cr :
         | (rename_i heq; have := ih _ _ _ heq
            simp only [List.length_cons, List.length_drop] at *; omega)
 
+theorem ne_of_toNat {x y : Byte} (h : x.toNat ≠ y.toNat) : x ≠ y := fun e => h (e ▸ rfl)
+
+theorem u8_lit (x y : Byte) (h : x.toNat = y.toNat) : x = y := UInt8.toNat_inj.mp h
+
 /-- an accepted record list that consists of documented kinds only is what the SPEC reader sees -/
-theorem readRecs_sound (cfg : Cfg) : ∀ (f : Nat) (rest : List Byte) (rs : List Record) (x : List Item × List Byte),
-    readRecs cfg f rest = .ok rs → toItems rs = some x → parseItems f rest = some x := by
+theorem readRecs_sound (cfg : Cfg) : ∀ (f : Nat) (l : List Byte) (rs : List Record) (x : List Item × List Byte),
+    readRecs cfg f l = .ok rs → toItems rs = some x → parseItems f l = some x := by
   intro f
   induction f with
-  | zero => intro rest rs x h; simp [readRecs] at h
+  | zero => intro l rs x h; simp [readRecs] at h
   | succ f ih =>
-    intro rest rs x h ht
-    cases rest with
-    | nil => simp [readRecs] at h
-    | cons y ys =>
-      unfold readRecs at h
-      repeat' split at h
-      all_goals (try (cases h; done))
-      all_goals (injection h with h; subst h)
-      all_goals (
-        have e0 : (y = 0) = (y.toNat = 0) := by rw [← UInt8.toNat_inj]; rfl
-        have e80 : (y = 0x80) = (y.toNat = 128) := by rw [← UInt8.toNat_inj]; rfl
-        have e81 : (y = 0x81) = (y.toNat = 129) := by rw [← UInt8.toNat_inj]; rfl
-        simp only [toItems] at ht)
-      all_goals (repeat' split at ht)
-      all_goals (try (cases ht; done))
-      all_goals (injection ht with ht; subst ht)
-      all_goals first
-        | (simp only [parseItems, e0]; simp [*]; done)
-        | (have hp := ih _ _ _ (by assumption) (by assumption)
-           simp only [parseItems, e0, e80, e81]
-           have hn0 : ¬ y.toNat = 0 := by omega
-           first
-             | (have h80 : y.toNat = 128 := by omega
-                rw [if_neg hn0, if_pos h80, hp])
-             | (have h81 : y.toNat = 129 := by omega
-                have hn80 : ¬ y.toNat = 128 := by omega
-                rw [if_neg hn0, if_neg hn80, if_pos h81]
-                split
-                · exfalso; omega
-                · rw [hp])
-             | (have hlt : y.toNat < 128 := by omega
-                have hn81 : ¬ y.toNat = 129 := by omega
-                have hn80 : ¬ y.toNat = 128 := by omega
-                rw [if_neg hn0, if_neg hn80, if_neg hn81, if_pos hlt]
-                split
-                · exfalso; omega
-                · rw [hp]))
-
+    intro l rs x h ht
+    unfold readRecs at h
+    split at h
+    · rename_i cr hs
+      injection h with h; subst h
+      rw [step_fin _ _ _ hs]
+      simp only [toItems, Option.some.injEq] at ht
+      subst ht
+      simp [parseItems]
+    · cases h
+    · rename_i r rest hs
+      split at h
+      · rename_i rs' hr
+        injection h with h; subst h
+        have sh := step_more _ _ _ _ hs
+        cases sh with
+        | entry a0 a1 a2 a3 rest =>
+          simp only [toItems] at ht
+          split at ht
+          · rename_i is cr hti
+            injection ht with ht; subst ht
+            have := ih _ _ _ hr hti
+            simp [parseItems, this]
+          · cases ht
+        | short h a0 a1 a2 a3 l0 l1 rest' hh hp hl =>
+          simp only [toItems] at ht
+          split at ht
+          · split at ht
+            · rename_i is cr hti
+              injection ht with ht; subst ht
+              have := ih _ _ _ hr hti
+              have h0 : h ≠ 0 := ne_of_toNat (by show h.toNat ≠ 0; exact hh.1)
+              have h80 : h ≠ 0x80 := ne_of_toNat (by show h.toNat ≠ 128; omega)
+              have h81 : h ≠ 0x81 := ne_of_toNat (by show h.toNat ≠ 129; omega)
+              simp only [parseItems, if_neg h0, if_neg h80, if_neg h81, if_pos hh.2]
+              rw [if_neg (by omega), this]
+            · cases ht
+          · cases ht
+        | long h c s g a0 a1 a2 a3 l0 l1 rest' hh hd hp hl =>
+          simp only [toItems] at ht
+          split at ht
+          · rename_i h81
+            split at ht
+            · rename_i is cr hti
+              injection ht with ht; subst ht
+              have := ih _ _ _ hr hti
+              have hy : h = 0x81 := u8_lit _ _ h81
+              subst hy
+              simp only [parseItems]
+              rw [if_neg (by decide), if_neg (by decide), if_pos (by decide)]
+              rw [if_neg (by omega), this]
+            · cases ht
+          · cases ht
+        | skipLong h c s g a0 a1 a2 a3 l0 l1 rest' hh hd hl =>
+          simp only [toItems] at ht
+          split at ht
+          · rename_i h81
+            split at ht
+            · rename_i is cr hti
+              injection ht with ht; subst ht
+              have := ih _ _ _ hr hti
+              have hy : h = 0x81 := u8_lit _ _ h81
+              subst hy
+              simp only [parseItems]
+              rw [if_neg (by decide), if_neg (by decide), if_pos (by decide)]
+              rw [if_neg (by omega), this]
+            · cases ht
+          · cases ht
+        | reloc => simp [toItems] at ht
+        | other => simp [toItems] at ht
+      · cases h
 
 /-- every file the SPEC reader accepts is accepted by the tool's loop with the same content, provided
-enough bytes follow the last data record for the tool's length test and the tool's pre-checks pass -/
+enough bytes follow the last data record for the tool's length test and the tool's header tests pass -/
 theorem readRecs_complete (cfg : Cfg) (hd : 0x81 ≤ cfg.dataUpTo) :
     ∀ (f : Nat) (rest : List Byte) (is : List Item) (cr : List Byte),
     parseItems f rest = some (is, cr) → cfg.slack ≤ cr.length + 1 →
-    (∀ r ∈ dataRecs is, preCheck cfg r.cpu r.gran = .ok ()) →
+    (∀ r ∈ dataRecs is, preCheck cfg r.cpu r.seg r.gran = .ok ()) →
     ∃ rs, readRecs cfg f rest = .ok rs ∧ toItems rs = some (is, cr) := by
   intro f
   induction f with
@@ -182,24 +655,26 @@ theorem readRecs_complete (cfg : Cfg) (hd : 0x81 ≤ cfg.dataUpTo) :
       all_goals (injection h with h; injection h with h1 h2; subst h1; subst h2)
       · -- $00
         rename_i h0
-        exact ⟨[.fin ys], by simp only [readRecs]; rw [if_pos h0], rfl⟩
+        refine ⟨[.fin ys], ?_, rfl⟩
+        have hy : y = 0x00 := u8_lit _ _ h0
+        subst hy
+        simp only [readRecs, step_zero]
       · -- $80
         rename_i hn0 h80 _ a0 a1 a2 a3 rest' _ is' cr' heq
         obtain ⟨rs, hr, ht⟩ := ih _ _ _ heq hs (fun r hr => hpre r (by simpa [dataRecs] using hr))
         refine ⟨.entry a0 a1 a2 a3 :: rs, ?_, by simp [toItems, ht]⟩
-        simp only [readRecs]; rw [if_neg hn0, if_pos h80]; simp only [hr]
+        have hy : y = 0x80 := u8_lit _ _ h80
+        subst hy
+        simp only [readRecs, step_of_shape (StepShape.entry (cfg := cfg) a0 a1 a2 a3 rest'), hr]
       · -- $81
         rename_i hn0 hn80 h81 _ cpu seg gran a0 a1 a2 a3 l0 l1 rest' hlt _ is' cr' heq
         have hlen := parseItems_len _ _ _ _ heq
         obtain ⟨rs, hr, ht⟩ := ih _ _ _ heq hs (fun r hr => hpre r (by simp [dataRecs, hr]))
         have hp := hpre _ (List.Mem.head _)
         refine ⟨.data false y cpu seg gran (rd32 a0 a1 a2 a3) (rest'.take (rd16 l0 l1)) :: rs, ?_, ?_⟩
-        · simp only [readRecs]
-          rw [if_neg hn0, if_neg hn80, if_neg (by omega : ¬ y.toNat < 128), if_pos (by omega : y.toNat ≤ 132),
-            if_pos (by omega : y.toNat ≤ cfg.dataUpTo)]
-          simp only [hp]
-          rw [if_neg (by simp only [List.length_drop] at hlen; omega)]
-          simp only [hr]
+        · have sh := StepShape.long (cfg := cfg) y cpu seg gran a0 a1 a2 a3 l0 l1 rest' (by omega) (by omega) hp
+            (by simp only [List.length_drop] at hlen; omega)
+          simp only [readRecs, step_of_shape sh, hr]
         · simp [toItems, ht, h81]
       · -- $01..$7f
         rename_i hn0 hn80 hn81 hlt7 _ a0 a1 a2 a3 l0 l1 rest' hlt _ is' cr' heq
@@ -207,55 +682,264 @@ theorem readRecs_complete (cfg : Cfg) (hd : 0x81 ≤ cfg.dataUpTo) :
         obtain ⟨rs, hr, ht⟩ := ih _ _ _ heq hs (fun r hr => hpre r (by simp [dataRecs, hr]))
         have hp := hpre _ (List.Mem.head _)
         refine ⟨.data true 0x81 y segCode (granOf y segCode) (rd32 a0 a1 a2 a3) (rest'.take (rd16 l0 l1)) :: rs, ?_, ?_⟩
-        · simp only [readRecs]
-          rw [if_neg hn0, if_neg hn80, if_pos hlt7]
-          simp only [hp]
-          rw [if_neg (by simp only [List.length_drop] at hlen; omega)]
-          simp only [hr]
+        · have sh := StepShape.short (cfg := cfg) y a0 a1 a2 a3 l0 l1 rest' ⟨hn0, hlt7⟩ hp
+            (by simp only [List.length_drop] at hlen; omega)
+          simp only [readRecs, step_of_shape sh, hr]
         · simp [toItems, ht]
 
+/-- tool and SPEC reader agree about the creator string of a file both accept -/
+theorem readRecs_creator (cfg : Cfg) : ∀ (f : Nat) (l : List Byte) (rs : List Record) (is : List Item) (cr : List Byte),
+    readRecs cfg f l = .ok rs → parseItems f l = some (is, cr) → ∃ recs, rs = recs ++ [.fin cr] := by
+  intro f
+  induction f with
+  | zero => intro l rs is cr h; simp [readRecs] at h
+  | succ f ih =>
+    intro l rs is cr h hp
+    unfold readRecs at h
+    split at h
+    · rename_i cr' hs
+      injection h with h; subst h
+      rw [step_fin _ _ _ hs] at hp
+      simp only [parseItems, if_pos, Option.some.injEq, Prod.mk.injEq] at hp
+      exact ⟨[], by rw [hp.2]; rfl⟩
+    · cases h
+    · rename_i r rest hs
+      split at h
+      · rename_i rs' hr
+        injection h with h; subst h
+        have sh := step_more _ _ _ _ hs
+        have key : ∀ is', parseItems f rest = some (is', cr) → ∃ recs, r :: rs' = recs ++ [.fin cr] := by
+          intro is' hq
+          obtain ⟨recs, hrecs⟩ := ih _ _ _ _ hr hq
+          exact ⟨r :: recs, by rw [hrecs]; rfl⟩
+        cases sh with
+        | entry a0 a1 a2 a3 rest =>
+          simp only [parseItems] at hp
+          rw [if_neg (by decide), if_pos (by decide)] at hp
+          split at hp
+          · rename_i is' cr' hq
+            injection hp with hp; injection hp with hp1 hp2; subst hp2
+            exact key _ hq
+          · cases hp
+        | short h a0 a1 a2 a3 l0 l1 rest' hh hpc hl =>
+          have h0 : h ≠ 0 := ne_of_toNat (by show h.toNat ≠ 0; exact hh.1)
+          have h80 : h ≠ 0x80 := ne_of_toNat (by show h.toNat ≠ 128; omega)
+          have h81 : h ≠ 0x81 := ne_of_toNat (by show h.toNat ≠ 129; omega)
+          simp only [parseItems, if_neg h0, if_neg h80, if_neg h81, if_pos hh.2] at hp
+          rw [if_neg (by omega)] at hp
+          split at hp
+          · rename_i is' cr' hq
+            injection hp with hp; injection hp with hp1 hp2; subst hp2
+            exact key _ hq
+          · cases hp
+        | long h c s g a0 a1 a2 a3 l0 l1 rest' hh hd hpc hl =>
+          by_cases h81 : h.toNat = 0x81
+          · have hy : h = 0x81 := u8_lit _ _ h81
+            subst hy
+            simp only [parseItems] at hp
+            rw [if_neg (by decide), if_neg (by decide), if_pos (by decide)] at hp
+            rw [if_neg (by omega)] at hp
+            split at hp
+            · rename_i is' cr' hq
+              injection hp with hp; injection hp with hp1 hp2; subst hp2
+              exact key _ hq
+            · cases hp
+          · have h0 : h ≠ 0 := ne_of_toNat (by show h.toNat ≠ 0; omega)
+            have h80 : h ≠ 0x80 := ne_of_toNat (by show h.toNat ≠ 128; omega)
+            have h81' : h ≠ 0x81 := ne_of_toNat (by show h.toNat ≠ 129; omega)
+            simp only [parseItems, if_neg h0, if_neg h80, if_neg h81', if_neg (by omega : ¬ h.toNat < 0x80)] at hp
+            cases hp
+        | skipLong h c s g a0 a1 a2 a3 l0 l1 rest' hh hd hl =>
+          by_cases h81 : h.toNat = 0x81
+          · have hy : h = 0x81 := u8_lit _ _ h81
+            subst hy
+            simp only [parseItems] at hp
+            rw [if_neg (by decide), if_neg (by decide), if_pos (by decide)] at hp
+            rw [if_neg (by omega)] at hp
+            split at hp
+            · rename_i is' cr' hq
+              injection hp with hp; injection hp with hp1 hp2; subst hp2
+              exact key _ hq
+            · cases hp
+          · have h0 : h ≠ 0 := ne_of_toNat (by show h.toNat ≠ 0; omega)
+            have h80 : h ≠ 0x80 := ne_of_toNat (by show h.toNat ≠ 128; omega)
+            have h81' : h ≠ 0x81 := ne_of_toNat (by show h.toNat ≠ 129; omega)
+            simp only [parseItems, if_neg h0, if_neg h80, if_neg h81', if_neg (by omega : ¬ h.toNat < 0x80)] at hp
+            cases hp
+        | reloc h r0 r1 r2 r3 e0 e1 e2 e3 s0 s1 s2 s3 rest' hh hl hv =>
+          have h0 : h ≠ 0 := ne_of_toNat (by show h.toNat ≠ 0; omega)
+          have h80 : h ≠ 0x80 := ne_of_toNat (by show h.toNat ≠ 128; omega)
+          have h81' : h ≠ 0x81 := ne_of_toNat (by show h.toNat ≠ 129; omega)
+          simp only [parseItems, if_neg h0, if_neg h80, if_neg h81', if_neg (by omega : ¬ h.toNat < 0x80)] at hp
+          cases hp
+        | other h a0 a1 a2 a3 l0 l1 rest' hh hl =>
+          have h0 : h ≠ 0 := ne_of_toNat (by show h.toNat ≠ 0; omega)
+          have h80 : h ≠ 0x80 := ne_of_toNat (by show h.toNat ≠ 128; omega)
+          have h81' : h ≠ 0x81 := ne_of_toNat (by show h.toNat ≠ 129; omega)
+          simp only [parseItems, if_neg h0, if_neg h80, if_neg h81', if_neg (by omega : ¬ h.toNat < 0x80)] at hp
+          cases hp
+      · cases h
 
-/-- with the intended guard, no record the tool divides for has granularity 0 -/
+/-- the data records of an accepted documented content passed the tool's header tests -/
+theorem readRecs_prechecked (cfg : Cfg) (hd : 0x81 ≤ cfg.dataUpTo) :
+    ∀ (f : Nat) (l : List Byte) (rs : List Record) (is : List Item) (cr : List Byte),
+    readRecs cfg f l = .ok rs → toItems rs = some (is, cr) →
+    ∀ r ∈ dataRecs is, preCheck cfg r.cpu r.seg r.gran = .ok () := by
+  intro f
+  induction f with
+  | zero => intro l rs is cr h; simp [readRecs] at h
+  | succ f ih =>
+    intro l rs is cr h ht
+    unfold readRecs at h
+    split at h
+    · injection h with h; subst h
+      simp only [toItems, Option.some.injEq, Prod.mk.injEq] at ht
+      rw [← ht.1]; intro r hr; simp [dataRecs] at hr
+    · cases h
+    · rename_i r rest hs
+      split at h
+      · rename_i rs' hr
+        injection h with h; subst h
+        have sh := step_more _ _ _ _ hs
+        cases sh with
+        | entry a0 a1 a2 a3 rest =>
+          simp only [toItems] at ht
+          split at ht
+          · rename_i is' cr' hti
+            injection ht with ht; injection ht with ht1 ht2; subst ht1
+            intro r hr'
+            exact ih _ _ _ _ hr hti r (by simpa [dataRecs] using hr')
+          · cases ht
+        | short h a0 a1 a2 a3 l0 l1 rest' hh hp hl =>
+          simp only [toItems] at ht
+          split at ht
+          · split at ht
+            · rename_i is' cr' hti
+              injection ht with ht; injection ht with ht1 ht2; subst ht1
+              intro r hr'
+              simp only [dataRecs, List.mem_cons] at hr'
+              rcases hr' with rfl | hr'
+              · exact hp
+              · exact ih _ _ _ _ hr hti r hr'
+            · cases ht
+          · cases ht
+        | long h c s g a0 a1 a2 a3 l0 l1 rest' hh hd' hp hl =>
+          simp only [toItems] at ht
+          split at ht
+          · split at ht
+            · rename_i is' cr' hti
+              injection ht with ht; injection ht with ht1 ht2; subst ht1
+              intro r hr'
+              simp only [dataRecs, List.mem_cons] at hr'
+              rcases hr' with rfl | hr'
+              · exact hp
+              · exact ih _ _ _ _ hr hti r hr'
+            · cases ht
+          · cases ht
+        | skipLong h c s g a0 a1 a2 a3 l0 l1 rest' hh hd' hl =>
+          simp only [toItems] at ht
+          split at ht
+          · rename_i h81; exfalso; omega
+          · cases ht
+        | reloc => simp [toItems] at ht
+        | other => simp [toItems] at ht
+      · cases h
+
+/-! ## reserved kinds -/
+
+/-- record kinds outside the documented grammar, which the tools skip (or plist lists) -/
+def Record.reserved : Record → Bool
+  | .data _ hdr _ _ _ _ _ => hdr.toNat != 0x81
+  | .reloc _ _ => true
+  | .other _ _ _ => true
+  | _ => false
+
+/-- an accepted list either is a documented content or contains a reserved kind -/
+theorem readRecs_reserved (cfg : Cfg) : ∀ (f : Nat) (l : List Byte) (rs : List Record),
+    readRecs cfg f l = .ok rs → toItems rs = none → ∃ r ∈ rs, r.reserved = true := by
+  intro f
+  induction f with
+  | zero => intro l rs h; simp [readRecs] at h
+  | succ f ih =>
+    intro l rs h ht
+    unfold readRecs at h
+    split at h
+    · injection h with h; subst h; simp [toItems] at ht
+    · cases h
+    · rename_i r rest hs
+      split at h
+      · rename_i rs' hr
+        injection h with h; subst h
+        cases r with
+        | data sh hdr c s g st p =>
+          by_cases h81 : hdr.toNat = 0x81
+          · simp only [toItems, if_pos h81] at ht
+            split at ht
+            · cases ht
+            · rename_i hn
+              obtain ⟨r, hr1, hr2⟩ := ih _ _ hr hn
+              exact ⟨r, List.mem_cons_of_mem _ hr1, hr2⟩
+          · exact ⟨_, List.Mem.head _, by simp [Record.reserved, h81]⟩
+        | entry a0 a1 a2 a3 =>
+          simp only [toItems] at ht
+          split at ht
+          · cases ht
+          · rename_i hn
+            obtain ⟨r, hr1, hr2⟩ := ih _ _ hr hn
+            exact ⟨r, List.mem_cons_of_mem _ hr1, hr2⟩
+        | reloc c b => exact ⟨_, List.Mem.head _, rfl⟩
+        | other h a p => exact ⟨_, List.Mem.head _, rfl⟩
+        | fin cr => exact absurd rfl ((step_more _ _ _ _ hs).notFin cr)
+      · cases h
+
+/-! ## granularity guard -/
+
+/-- with the guard, no record the tool divides for has granularity 0 -/
 def GranOK (cfg : Cfg) : Record → Prop
   | .data _ hdr _ _ g _ _ => hdr.toNat ≤ cfg.dataUpTo → g.toNat ≠ 0
   | _ => True
 
-theorem preCheck_gran (cfg : Cfg) (hg : cfg.granCheck = true) (c g : Byte) (u : Unit)
-    (h : preCheck cfg c g = .ok u) : g.toNat ≠ 0 := by
+theorem preCheck_gran (cfg : Cfg) (hg : cfg.granCheck = true) (c s g : Byte) (u : Unit)
+    (h : preCheck cfg c s g = .ok u) : g.toNat ≠ 0 := by
   unfold preCheck at h
   split at h
   · cases h
-  · split at h
-    · cases h
-    · rename_i h2; intro h0; exact h2 ⟨hg, h0⟩
+  · rename_i h2; intro h0; exact h2 ⟨hg, h0⟩
 
-theorem readRecs_granOK (cfg : Cfg) (hg : cfg.granCheck = true) (hd : 0x81 ≤ cfg.dataUpTo) :
-    ∀ (f : Nat) (rest : List Byte) (rs : List Record),
-    readRecs cfg f rest = .ok rs → ∀ r ∈ rs, GranOK cfg r := by
+theorem StepShape.granOK {cfg : Cfg} {l : List Byte} {r : Record} {rest : List Byte} (h : StepShape cfg l r rest)
+    (hg : cfg.granCheck = true) : GranOK cfg r := by
+  cases h with
+  | entry => trivial
+  | short h a0 a1 a2 a3 l0 l1 rest' hh hp hl => intro _; exact preCheck_gran cfg hg _ _ _ _ hp
+  | long h c s g a0 a1 a2 a3 l0 l1 rest' hh hd' hp hl => intro _; exact preCheck_gran cfg hg _ _ _ _ hp
+  | skipLong h c s g a0 a1 a2 a3 l0 l1 rest' hh hd' hl => intro hle; exact absurd hle hd'
+  | reloc => trivial
+  | other => trivial
+
+theorem readRecs_granOK (cfg : Cfg) (hg : cfg.granCheck = true) :
+    ∀ (f : Nat) (l : List Byte) (rs : List Record),
+    readRecs cfg f l = .ok rs → ∀ r ∈ rs, GranOK cfg r := by
   intro f
   induction f with
-  | zero => intro rest rs h; simp [readRecs] at h
+  | zero => intro l rs h; simp [readRecs] at h
   | succ f ih =>
-    intro rest rs h
-    cases rest with
-    | nil => simp [readRecs] at h
-    | cons x xs =>
-      unfold readRecs at h
-      repeat' split at h
-      all_goals (try (cases h; done))
-      all_goals (injection h with h; subst h)
-      all_goals (
-        intro r hr
-        simp only [List.mem_cons, List.mem_singleton, List.not_mem_nil, or_false] at hr)
-      all_goals first
-        | (subst hr; simp [GranOK]; done)
-        | (rcases hr with hr | hr
-           · subst hr
-             simp only [GranOK] <;> first
-               | trivial
-               | (intro _; exact preCheck_gran cfg hg _ _ _ (by assumption))
-               | (intro hle; exfalso; omega)
-           · exact ih _ _ (by assumption) r hr)
+    intro l rs h
+    unfold readRecs at h
+    split at h
+    · injection h with h; subst h
+      intro r hr
+      simp only [List.mem_singleton] at hr
+      subst hr; trivial
+    · cases h
+    · rename_i r rest hs
+      split at h
+      · rename_i rs' hr
+        injection h with h; subst h
+        intro r' hr'
+        rcases List.mem_cons.mp hr' with h1 | h1
+        · subst h1; exact (step_more _ _ _ _ hs).granOK hg
+        · exact ih _ _ hr r' h1
+      · cases h
 
 theorem useAll_ok (cfg : Cfg) (ps : Bool) : ∀ rs : List Record, (∀ r ∈ rs, GranOK cfg r) →
     ∃ vs, useAll cfg ps rs = .ok vs := by
@@ -293,6 +977,44 @@ theorem magic_iff (m0 m1 : Byte) : rd16 m0 m1 = Generated.fileMagic ↔ (m0 = 0x
     · apply UInt8.toNat_inj.mp; show m1.toNat = 20; omega
   · rintro ⟨rfl, rfl⟩; rfl
 
+
+/-! ## file level -/
+
+/-- rejected: format error (3), or the I/O error exit (2) that only a stale `errno` can produce -/
+def Rejected (cfg : Cfg) (r : Except ToolErr (List Record)) : Prop :=
+  exitStatus r = 3 ∨ (exitStatus r = 2 ∧ (cfg.errnoMagic = true ∨ cfg.errnoLoop = true))
+
+theorem Rejected.clean {cfg : Cfg} {r : Except ToolErr (List Record)} (h : Rejected cfg r)
+    (hm : cfg.errnoMagic = false) (hl : cfg.errnoLoop = false) : exitStatus r = 3 := by
+  rcases h with h | ⟨_, h | h⟩
+  · exact h
+  · rw [hm] at h; cases h
+  · rw [hl] at h; cases h
+
+theorem readFile_io (cfg : Cfg) (bs : List Byte) (h : readFile cfg bs = .error .io) :
+    cfg.errnoMagic = true ∨ cfg.errnoLoop = true := by
+  unfold readFile at h
+  split at h
+  · split at h
+    · exact Or.inr (readRecs_io cfg _ _ h)
+    · cases h
+  · split at h
+    · rename_i hm; exact Or.inl hm
+    · cases h
+
+/-- extension of an accepted file: the appended bytes become part of the creator string -/
+theorem readFile_extend (cfg : Cfg) (p t : List Byte) (rs : List Record) (h : readFile cfg p = .ok rs) :
+    ∃ recs cr, rs = recs ++ [.fin cr] ∧ readFile cfg (p ++ t) = .ok (recs ++ [.fin (cr ++ t)]) := by
+  unfold readFile at h
+  split at h
+  · rename_i m0 m1 rest
+    split at h
+    · rename_i hm
+      obtain ⟨recs, cr, h1, h2⟩ := readRecs_extend cfg t _ _ _ h ((rest ++ t).length + 1)
+        (by simp only [List.length_append]; omega)
+      exact ⟨recs, cr, h1, by simp only [readFile, List.cons_append, hm, if_true, h2]⟩
+    · cases h
+  · cases h
 
 /-! decidable views for concrete witnesses -/
 
